@@ -110,11 +110,11 @@ PROPS["C20"] = dict(
     rule="cases of 1-4 keystores x up to 400 ids incl. odd ids; ops create/get/has/has-never-created/createIdentity/sign/restart in PRNG order; non-trivial = a created key is read through a non-creator keystore, after a restart, or after >= 128 later creations",
 )
 
-PROPS_EXTRA = {"C06": ["Props.EffectFacts", "Props.CodecFacts", "Props.SlicesGen"], "C17": ["Props.EffectFacts"],
+PROPS_EXTRA = {"C06": ["Props.EffectFacts", "Props.CodecFacts", "Props.SlicesGen"], "C17": ["Props.EffectFacts", "Props.SlicesGen"],
                "C04": ["Props.C04Conc", "Props.SlicesGen"],
                "C02": ["Props.C13Facts", "Props.SlicesGen"], "C15": ["Props.C13Facts", "Props.SlicesGen"], "C19": ["Props.C19Gen"], "C03": ["Props.C19Gen", "Props.SlicesGen"],
                "C01": ["Props.SlicesGen"], "C05": ["Props.SlicesGen"],
-               "C07": ["Props.CodecFacts"], "C08": ["Props.CodecFacts", "Props.SlicesGen"], "C12": ["Props.CodecFacts"],
+               "C07": ["Props.CodecFacts"], "C08": ["Props.CodecFacts", "Props.SlicesGen"], "C12": ["Props.CodecFacts", "Props.SlicesGen"], "C11": ["Props.SlicesGen"],
                "C18": ["Props.CodecFacts", "Props.SlicesGen"], "C09": ["Props.SlicesGen"], "C10": ["Props.SlicesGen"],
                "C14": ["Props.SlicesGen"], "C16": ["Props.SlicesGen"]}
 _core_prop("C06", "Merge admits only verified, authorised entries and is all-or-nothing",
